@@ -501,6 +501,9 @@ func (css *Consensus) batchWorker() {
 			// Commit
 			if err := css.batchingState.Commit(css.ctx); err != nil {
 				logger.Errorf("error commiting batch after reaching max age: %s", err)
+				// the timer has fired: re-arm it so that the
+				// pending batch is retried when it ages again.
+				batchTimer.Reset(maxAge)
 				continue
 			}
 			logger.Debugf("batch commit (max age): %d items", batchCurSize)
